@@ -3,6 +3,7 @@ package main
 // Spec functions usable in contracts, and the Seata v1 layout table (independent oracle for C12/C13).
 
 import (
+	"math/big"
 	"bufio"
 	"fmt"
 	"go/ast"
@@ -357,20 +358,9 @@ func init() {
 		// tofloat(x): the float64 a decimal rendering of the integer x is read back as (the nearest
 		// double). Assumed with it - IEEE 754 binary64, 53-bit significand, for |x| < 2^64: reading the
 		// double back as an integer gives x exactly when x is representable, i.e. when |x| <= 2^53
-		// or x is a multiple of 2^(j+1) for 2^(53+j) < |x| <= 2^(54+j).
+		// or x is a multiple of 2^(j+1) for 2^(53+j) < |x| <= 2^(54+j) (see floatOfInt).
 		"tofloat": func(e *Env, args []ast.Expr) Value {
-			x := e.toTerm(e.eval(args[0]))
-			f := UF("i2f", SInt, x)
-			back := UF("f2i", SInt, f)
-			ax := Ite(Le(Int(0), x), x, Sub(Int(0), x))
-			p53 := IntB(Pow2(53))
-			e.st.assume(Implies(Le(ax, p53), Eq(back, x)))
-			for j := uint(0); j <= 10; j++ {
-				lo, hi := IntB(Pow2(53+j)), IntB(Pow2(54+j))
-				e.st.assume(Implies(And(Lt(lo, ax), Le(ax, hi)),
-					Eq(Eq(back, x), Eq(Mod(x, IntB(Pow2(j+1))), Int(0)))))
-			}
-			return Scalar{f}
+			return Scalar{floatOfInt(e.st, e.toTerm(e.eval(args[0])))}
 		},
 		// contains(a, b): string b occurs in string a
 		"contains": func(e *Env, args []ast.Expr) Value {
@@ -785,4 +775,44 @@ func (e *Env) ptrElemHint(args []ast.Expr) types.Type {
 		}
 	}
 	return nil
+}
+
+// floatOfInt: the float64 an integer converts to (float64(x), or reading its decimal text), as the
+// uninterpreted i2f(x) together with the facts of IEEE 754 binary64 (53-bit significand, round to
+// nearest, ties to even) for |x| < 2^64: i2f(x) == i2f(r) where r is x rounded to the spacing of its
+// binade (r == x for |x| <= 2^53), and converting that double back gives r exactly.
+var floatOfIntMemo = map[string][2]*Term{}
+
+func floatOfInt(st *State, x *Term) *Term {
+	f := UF("i2f", SInt, x)
+	if m, ok := floatOfIntMemo[x.String()]; ok {
+		st.assume(m[0])
+		st.assume(m[1])
+		return f
+	}
+	if x.IsInt() && new(big.Int).Abs(x.I).Cmp(Pow2(53)) <= 0 {
+		st.assume(Eq(UF("f2i", SInt, f), x))
+		return f
+	}
+	neg := Lt(x, Int(0))
+	ax := Ite(neg, Sub(Int(0), x), x)
+	r := ax // rounded magnitude
+	for j := int(10); j >= 0; j-- {
+		s := IntB(Pow2(uint(j + 1)))
+		half := IntB(Pow2(uint(j)))
+		q := Div(ax, s)
+		rem := Mod(ax, s)
+		up := Mul(Add(q, Int(1)), s)
+		down := Mul(q, s)
+		tie := Ite(Eq(Mod(q, Int(2)), Int(0)), down, up)
+		rj := Ite(Lt(rem, half), down, Ite(Lt(half, rem), up, tie))
+		r = Ite(And(Lt(IntB(Pow2(uint(53+j))), ax), Le(ax, IntB(Pow2(uint(54+j))))), rj, r)
+	}
+	rs := Ite(neg, Sub(Int(0), r), r)
+	fr := UF("i2f", SInt, rs)
+	a, b := Eq(f, fr), Eq(UF("f2i", SInt, fr), rs)
+	floatOfIntMemo[x.String()] = [2]*Term{a, b}
+	st.assume(a)
+	st.assume(b)
+	return f
 }
